@@ -1,5 +1,5 @@
 (* statement pins and axiom audit for C15 (compiled on every check) *)
-From ChiaV.Base Require Import Bytes.
+From ChiaV.Base Require Import Bytes Sha256.
 From ChiaV.Bls Require Import Algebra Cache Verify Sched Spec Toy.
 From ChiaV.Props Require Import C15.
 Open Scope N_scope.
@@ -53,6 +53,17 @@ Check C15_cache_transparent_complete :
   cache_ok P H (fst g) /\ clen (fst g) <= cap /\ all_finished (snd g) = true /\
   verdicts_transparent P H cap (snd g).
 Print Assumptions C15_cache_transparent_complete.
+Check C15_every_call_answered :
+  forall (G1 G2 GT : Type) (P : pairing_ops G1 G2 GT) (H : bytes -> bytes) (c : cache GT)
+         (progs : list (list call)) (sched : list nat),
+  Forall2 (fun t prog => thread_obs t = prog_obs prog) (snd (run_par P H true c progs sched)) progs.
+Print Assumptions C15_every_call_answered.
+Check C15_verdict_independent_of_cache :
+  forall (G1 G2 GT : Type) (P : pairing_ops G1 G2 GT), pairing_laws P ->
+  forall (H : bytes -> bytes) (c1 c2 : cache GT) (sig : sigpt G2) (pairs : list (pkm (G1:=G1))),
+  cache_ok P H c1 -> cache_ok P H c2 ->
+  fst (cached_verify P H c1 sig pairs) = fst (cached_verify P H c2 sig pairs) \/ collision H.
+Print Assumptions C15_verdict_independent_of_cache.
 Check C15_history_transparent :
   forall (G1 G2 GT : Type) (P : pairing_ops G1 G2 GT), pairing_laws P ->
   forall (H : bytes -> bytes) (cap : N) (phases : list phase),
@@ -82,6 +93,12 @@ Print Assumptions C15_strong_nondegeneracy.
 Check C15_toy_prime_order :
   prime_order toy.
 Print Assumptions C15_toy_prime_order.
+Check C15_update_premise_needed :
+  let pk1 := pk_of toy 11 in let pk2 := pk_of toy 22 in let m := [x01] in
+  let c := cache_update Sha256.sha256 (empty_cache 2) (aug toy pk1 m) (pairing_of toy pk2 m) in
+  fst (cached_verify toy Sha256.sha256 c (SIn (sign toy 22 m)) [(pk1, m)]) = true /\
+  aggregate_verify toy (SIn (sign toy 22 m)) [(pk1, m)] = false.
+Print Assumptions C15_update_premise_needed.
 Check C15_premises_satisfiable :
   pairing_laws toy.
 Print Assumptions C15_premises_satisfiable.
